@@ -787,6 +787,18 @@ def check_split(path, log_entries, scratch, pick, probes, cs=None):
     db = Database(work, "a")
     db.open()
     try:
+        if (pick >> 8) & 1:
+            # a split that names a step the file does not hold is refused - and leaves the file alone
+            absent = (max(_group_time(nm)[0] for nm in log_entries) + 3, 0)
+            try:
+                db.splitDatabase([_group_time(keep[0]), absent], "-refused")
+            except ValueError:
+                probes["split_refused_for_an_absent_step"] += 1
+            else:
+                raise OracleFailure("C06.split", f"a split keeping the absent step {absent} was accepted", {"what": "absent-accepted"})
+            left = sorted(k for k in db.h5db.keys() if Database.timeNodeGroupPattern.match(k)) if db.h5db is not None else None
+            if left != sorted(log_entries):
+                raise OracleFailure("C06.split", f"after a refused split (absent step {absent}) the file lists {left}, it held {sorted(log_entries)}", {"what": "refused-split-changed-the-file"})
         steps_to_keep = [_group_time(nm) for nm in keep]
         if (pick >> 7) & 1:
             steps_to_keep.reverse()  # the order in which the caller lists the steps is the caller's business
